@@ -768,11 +768,22 @@ pub fn register(b: &mut DispatcherBuilder<'static, 'static>, it: &Item, ctx: &Ar
         Item::Batch(bs) => {
             let inner = instantiate(&bs.inner, ctx, pool);
             let deps: Vec<&str> = bs.deps.iter().map(|d| d.as_str()).collect();
-            if bs.multi {
-                with_menu!(bs.ctl_menu, M => b.add_batch(MultiDispatcher::new(HMulti::<M>::new(bs, ctx)), inner, &bs.name, &deps))
-            } else {
-                with_menu!(bs.ctl_menu, M => b.add_batch(HCtl::<M>::new(bs, ctx), inner, &bs.name, &deps))
-            }
+            add_batch_item(b, bs, inner, ctx, &deps);
         }
+    }
+}
+
+/// Adds a batch whose inner builder has been prepared by the caller.
+pub fn add_batch_item(
+    b: &mut DispatcherBuilder<'static, 'static>,
+    bs: &BatchSpec,
+    inner: DispatcherBuilder<'static, 'static>,
+    ctx: &Arc<Ctx>,
+    deps: &[&str],
+) {
+    if bs.multi {
+        with_menu!(bs.ctl_menu, M => b.add_batch(MultiDispatcher::new(HMulti::<M>::new(bs, ctx)), inner, &bs.name, deps))
+    } else {
+        with_menu!(bs.ctl_menu, M => b.add_batch(HCtl::<M>::new(bs, ctx), inner, &bs.name, deps))
     }
 }
